@@ -14,6 +14,21 @@ use epserde::ser::{self, SerializeInner, WriteNoStd, WriteWithPos, WriterWithPos
 
 pub const MAX_PREFIX: usize = 16;
 
+/// Assert each fact on a nondeterministically chosen branch of its own, so that a failing
+/// assertion (which ends its path) cannot mask the others.
+#[macro_export]
+macro_rules! check_each {
+    ($( ($c:expr, $m:literal) ),+ $(,)?) => {{
+        #[cfg(kani)]
+        let pick: usize = kani::any();
+        #[cfg(not(kani))]
+        let pick: usize = 0;
+        let mut i = 0usize;
+        $( if pick == i { assert!($c, $m); } i += 1; )+
+        let _ = i;
+    }};
+}
+
 #[cfg(kani)]
 pub fn sym_index(n: usize) -> usize {
     let i: usize = kani::any();
@@ -742,24 +757,29 @@ where
 
     let o: RefOut<N> = ref_at(v, pos0);
     let same = same_bytes(&sink.buf[..n], o.bytes());
-    assert!(same, "[C06/bytes.refenc] emitted bytes equal the reference encoding");
-    assert!(same, "[C07/bytes.padding] gaps are zero, minimal, and blocks start at multiples of their unit");
 
     // generic reader (ReaderWithPos over a ReadNoStd source), prefix counted
     let mut src = CountingSrc::new(&sink.buf[..n]);
     let mut rd = ReaderWithPos::new(&mut src);
     let mut pre = [0u8; MAX_PREFIX];
     let _ = rd.read_exact(&mut pre[..pos0]);
-    match T::_deserialize_full_inner(&mut rd) {
-        Ok(d) => {
-            assert!(d.keq(v), "[C01/full.value] full-copy result equals the original");
-            assert!(rd.pos() == pos0 + n, "[C07/full.consumed] full-copy consumes exactly the bytes written");
-        }
+    let (ok, value, consumed) = match T::_deserialize_full_inner(&mut rd) {
+        Ok(d) => (true, d.keq(v), rd.pos() == pos0 + n),
         Err(e) => {
             core::mem::forget(e);
-            assert!(false, "[C01/full.ok] full-copy deserialization succeeds")
+            (false, true, true)
         }
     };
+    // A failed assertion ends the path it fails on. The facts belong to different
+    // properties, so each is asserted on a branch of its own (nondeterministic choice):
+    // a failure of one never hides another.
+    check_each!(
+        (same, "[C06/bytes.refenc] emitted bytes equal the reference encoding"),
+        (same, "[C07/bytes.padding] gaps are zero, minimal, and blocks start at multiples of their unit"),
+        (ok, "[C01/full.ok] full-copy deserialization succeeds"),
+        (value, "[C01/full.value] full-copy result equals the original"),
+        (consumed, "[C07/full.consumed] full-copy consumes exactly the bytes written")
+    );
 }
 
 /// Same property, with the stream really placed in a 128-byte aligned buffer
@@ -823,37 +843,54 @@ where
         data: &sink.buf[pos0..n],
         pos: pos0,
     };
+    // every fact is computed first and asserted on a branch of its own (check_each!): a
+    // failure of one property's assertion never hides another's
+    let (mut ok, mut value, mut consumed, mut full_ok, mut agrees) = (true, true, true, true, true);
+    let (mut count, mut addr, mut inside, mut nonnull, mut len_ok, mut aligned) = (true, true, true, true, true, true);
     match T::_deserialize_eps_inner(&mut s) {
         Ok(d) => {
-            assert!(T::eps_eq(&d, v), "[C02/eps.value] eps-copy result describes the original");
-            assert!(s.pos == n, "[C07/eps.consumed] eps-copy consumes exactly the bytes written");
+            value = T::eps_eq(&d, v);
+            consumed = s.pos == n;
             // agreement with full copy on the same bytes
             let mut s2 = SliceWithPos {
                 data: &sink.buf[pos0..n],
                 pos: pos0,
             };
             match T::_deserialize_full_inner(&mut s2) {
-                Ok(f) => assert!(T::eps_eq(&d, &f), "[C02/eps.agrees_full] eps-copy describes the full-copy value"),
-                Err(_) => assert!(false, "[C02/eps.agrees_full] full-copy fails where eps-copy succeeds"),
+                Ok(f) => agrees = T::eps_eq(&d, &f),
+                Err(_) => full_ok = false,
             }
             // borrowed parts against the reference block list
             let mut bs = Borrows::new();
             T::borrows(&d, &mut bs);
-            assert!(bs.n == o.nblocks, "[C03/borrow.count] one borrowed part per zero-copy block");
+            count = bs.n == o.nblocks;
             // universally quantified block index (loop-free)
             let i: usize = sym_index(MAX_BORROWS);
             if i < bs.n && i < o.nblocks && bs.b[i].addr != COPIED {
                 let b = bs.b[i];
                 let k = o.blocks[i];
                 if k.len > 0 {
-                    assert!(b.addr == base + k.off, "[C03/borrow.addr] borrowed part points at the offset where the block was written");
-                    assert!(b.addr + b.bytes <= base + n, "[C03/borrow.inside] borrowed part covers only bytes of the buffer");
+                    addr = b.addr == base + k.off;
+                    inside = b.addr + b.bytes <= base + n;
                 }
-                assert!(b.addr != 0, "[C03/borrow.nonnull] a borrowed part is a valid (non-null) reference even when it covers no bytes");
-                assert!(b.bytes == k.len, "[C03/borrow.len] borrowed part has the written length");
-                assert!(b.addr % b.align == 0, "[C03/borrow.aligned] borrowed part is aligned for its element type");
+                nonnull = b.addr != 0;
+                len_ok = b.bytes == k.len;
+                aligned = b.align != 0 && b.addr % b.align == 0;
             }
         }
-        Err(_) => assert!(false, "[C02/eps.ok] eps-copy deserialization of an aligned buffer succeeds"),
+        Err(_) => ok = false,
     };
+    check_each!(
+        (ok, "[C02/eps.ok] eps-copy deserialization of an aligned buffer succeeds"),
+        (value, "[C02/eps.value] eps-copy result describes the original"),
+        (consumed, "[C07/eps.consumed] eps-copy consumes exactly the bytes written"),
+        (full_ok, "[C02/eps.agrees_full] full-copy fails where eps-copy succeeds"),
+        (agrees, "[C02/eps.agrees_full] eps-copy describes the full-copy value"),
+        (count, "[C03/borrow.count] one borrowed part per zero-copy block"),
+        (addr, "[C03/borrow.addr] borrowed part points at the offset where the block was written"),
+        (inside, "[C03/borrow.inside] borrowed part covers only bytes of the buffer"),
+        (nonnull, "[C03/borrow.nonnull] a borrowed part is a valid (non-null) reference even when it covers no bytes"),
+        (len_ok, "[C03/borrow.len] borrowed part has the written length"),
+        (aligned, "[C03/borrow.aligned] borrowed part is aligned for its element type")
+    );
 }
